@@ -62,6 +62,7 @@ pub fn run(run: &RunInfo) -> Summary {
             delay_ms: 0,
             focus19: false,
             rearm_dangling: false,
+            faults: false,
         };
         let st = dbx::explore(if noisy { 1 } else { 0 }, 200_000_000, |ctx| {
             let o = history(ctx, &p, Some(first), acc);
@@ -81,6 +82,56 @@ pub fn run(run: &RunInfo) -> Summary {
             acc.count("capped", 1);
         }
     });
+    // histories with transport faults (the fault menu of C09 as explorer deviations): what the token
+    // map must guarantee across a failed exchange, the re-sent command and the reconnect
+    {
+        let f_ops = ops(&["A", "B"]);
+        let f_depth = if run.thorough() { 4 } else { 3 };
+        let mut fwork: Vec<(usize, usize)> = vec![];
+        for max in 1..=2usize {
+            for first in 0..f_ops.len() {
+                fwork.push((max, first));
+            }
+        }
+        let part = par_for(fwork.len(), |ix, acc| {
+            let (max, first) = fwork[ix];
+            if skip_for_replay(run, &format!("c07/faults/max={max}/first={first}/")) {
+                return;
+            }
+            let p = HistParams {
+                max,
+                depth: f_depth,
+                ops: f_ops.clone(),
+                dangling: None,
+                reservation_menu: vec![Outcome::Ok, Outcome::Abort(0x6c)],
+                commit_menu: vec![Outcome::Ok],
+                cancel_menu: vec![Outcome::Ok],
+                eod_menu: vec![Eod::Completion],
+                noise: false,
+                delay_ms: 0,
+                focus19: false,
+                rearm_dangling: false,
+                faults: true,
+            };
+            let st = dbx::explore(1, 200_000_000, |ctx| {
+                let o = history(ctx, &p, Some(first), acc);
+                acc.count("executions", 1);
+                acc.count("fault_executions", 1);
+                if !o.c07.is_empty() {
+                    let choices = ctx.choices();
+                    acc.violation(viol(
+                        format!("c07/faults/max={max}/first={first}/choices={choices:?}"),
+                        format!("transactions_max_num = {max}, one transport fault\nhistory:\n  {}\nviolations:\n  {}", o.trace.join("\n  "), o.c07.join("\n  ")),
+                        o.trace.len() as u64,
+                    ));
+                }
+            });
+            if st.capped {
+                acc.count("capped", 1);
+            }
+        });
+        acc.merge(part);
+    }
     // state-deduplicated search beyond the depth bound (start from non-initial states too)
     if !skip_for_replay(run, "c07/bfs") || run.replay_only.as_ref().map(|r| r["key"].as_str().unwrap_or("").contains("/bfs/")).unwrap_or(false) {
         for max in 1..=3usize {
@@ -97,6 +148,7 @@ pub fn run(run: &RunInfo) -> Summary {
                 delay_ms: 0,
                 focus19: false,
                 rearm_dangling: false,
+            faults: false,
             };
             let (levels, states, transitions, fix) = bfs(&p, 12, &format!("c07/max={max}"), |o| &o.c07, &mut acc);
             acc.count("bfs_states", states as u64);
@@ -113,6 +165,8 @@ pub fn run(run: &RunInfo) -> Summary {
         ("w_refused_at_max", "a begin was refused at the maximum"),
         ("w_token_reused", "a token was reused after it was closed"),
         ("w_older_of_two", "the older of two open tokens was committed or cancelled"),
+        ("w_request_resent", "a commit or cancel was re-sent after a transport fault and named the same receipt number"),
+        ("w_begin_survived_fault", "a begin hit by a transport fault still recorded the receipt issued for it"),
     ] {
         if acc.get(c) > 0 {
             acc.witness(w);
@@ -135,6 +189,8 @@ pub fn run(run: &RunInfo) -> Summary {
             "a begin was refused at the maximum".into(),
             "a token was reused after it was closed".into(),
             "the older of two open tokens was committed or cancelled".into(),
+            "a commit or cancel was re-sent after a transport fault and named the same receipt number".into(),
+            "a begin hit by a transport fault still recorded the receipt issued for it".into(),
         ],
         assumptions: vec!["no transport faults in this check (C09/C10)".into(), "which ActiveTransaction text is used when both refusal reasons hold is not specified".into()],
         bounds: json!({"depth": depth, "tokens": 3, "max": "0..=3"}),
